@@ -366,9 +366,10 @@ class Pair:
         self.la, self.lb = flen(self.a), flen(self.b)
         self.M = float(maxabs(self.a0, self.a1, self.b0, self.b1))
         self.ill = ill_conditioned((self.a0, self.a1, self.b0, self.b1), (self.la, self.lb), T5)
-        # parallel?  the crate refuses |a x b|^2 < 1e-5 with a.b > 0 (is_same_direction) and max|n_k| <= 1e-5 otherwise
+        # parallel?  the crate refuses max|n_k| <= 1e-5 (since 2d3851b also for directions that nearly agree; before that it
+        # refused |a x b|^2 < 1e-5 with a.b > 0, and this oracle treated that as a band)
         if self.n2 * B * B <= T5 * T5: self.par = 'par'
-        elif self.n2 < T5 * B or maxabs(self.n) < T5 * B: self.par = 'band'
+        elif maxabs(self.n) < T5 * B: self.par = 'band'
         else: self.par = 'cross'
         self.cop = None
         if self.par == 'cross':
